@@ -176,7 +176,7 @@ func checkC10(r *Run) {
 			for _, p := range s.St.Paths {
 				for k, v := range p {
 					// atomic.CompareAndSwapUint32(&c.closed, 0, 1), or the typed form c.closed.CompareAndSwap(0, 1)
-					if v && (strings.Contains(k, "CompareAndSwapUint32(&") && strings.Contains(k, ".closed, 0, 1)") || strings.Contains(k, ".closed.CompareAndSwap(0, 1)")) {
+					if v && (strings.Contains(k, "CompareAndSwapUint32(&") && strings.Contains(k, ".closed, 0, 1)") || strings.Contains(k, ".closed.CompareAndSwap(0, 1)") || strings.Contains(k, ".closed.CompareAndSwap(false, true)")) {
 						okCAS = true
 					}
 				}
